@@ -911,6 +911,15 @@ class Exec:
                     st.assume(goal)
                 yield st, SliceView(obj, a, b)
                 return
+        if isinstance(obj, Ref) and type(st.heap[obj.oid]).__name__ == "HListP":
+            # a slice of a heap list: a new list object over the same candle references
+            from .store import HListP
+
+            p = st.heap[obj.oid]
+            a, b = self.clamp_slice(p.length(), lo, hi)
+            b = z3.If(b < a, a, b)
+            yield st, st.alloc(HListP(p.name + ".slice", p.store, p.arr, z3.simplify(p.lo + a), z3.simplify(p.lo + b)))
+            return
         if isinstance(obj, str) and all(b is None or isinstance(b, int) for b in (lo, hi)):
             yield st, obj[lo:hi]
             return
